@@ -142,6 +142,19 @@ def generate(seed, tier="quick"):
         files[0]["tests"] = []
         for s in scheds:
             s["tests"][0].append(copy.deepcopy(t))
+    trng = sub(seed, "trouble")
+    if trng.random() < 0.25:
+        # the first test of the session (the same in both schedules) compares a value whose element __eq__ raises while the library
+        # aligns it with the list in the source: a fault at ONE call site; every other site still has to behave as if it were alone
+        f = files[0]
+        prev = ["list", [["int", 1], ["int", 2]]]
+        val = trng.choice([["list", [["raiseseq", 1], ["int", 2]]], ["list", [["int", 1], ["evileq", 2], ["int", 3]]], ["tuple", [["raiseseq", 1]]]])
+        if val[0] == "tuple":
+            prev = ["tuple", [["int", 1]]]
+        f["sites"]["trouble"] = {"op": "eq", "place": "direct", "arg": V.expr(prev), "prev": prev, "trouble": True}
+        t = {"name": "test_00trouble", "events": [{"t": "cmp", "eid": "etrouble", "site": "trouble", "vals": [val], "style": "rec"}]}
+        for s in scheds:
+            s["tests"][0].insert(0, copy.deepcopy(t))
     for f in files:
         del f["_per_site"]
     frng = sub(seed, "flags")
